@@ -232,6 +232,15 @@ class horizon:
 
 
 # ---------------------------------------------------------------- accumulator
+class TooMany(Exception):
+    """A shard has seen enough violations: stop exploring it (the first counterexamples are what matters, and a
+    change that makes most executions hang must not turn a check into an hours-long run)."""
+
+
+VIOLATION_LIMIT = 500
+HANG_LIMIT = 3
+
+
 class Acc:
     """What one shard measured."""
 
@@ -252,6 +261,12 @@ class Acc:
     def violation(self, case, key, reason, order=None):
         self.nviol += 1
         self.keycount[key] += 1
+        if self.nviol >= VIOLATION_LIMIT or (key.startswith("HANG") and self.keycount[key] >= HANG_LIMIT):
+            if len(self.viol) < MAXV:
+                self.viol.append({"case": enc(case), "key": key, "reason": reason,
+                                  "ord": None if order is None else list(order)})
+            self.caps.append("shard stopped after %d violations (%s)" % (self.nviol, key))
+            raise TooMany(self)
         if len(self.viol) < MAXV or not any(v["key"] == key for v in self.viol):
             self.viol.append({"case": enc(case), "key": key, "reason": reason,
                               "ord": None if order is None else list(order)})
@@ -284,8 +299,8 @@ def _run_one(arg):
     t0 = time.time()
     try:
         res = mod.run_shard(shard)
-    except Hang:
-        raise
+    except TooMany as e:
+        res = e.args[0]
     if isinstance(res, Acc):
         res = res.result()
     res["idx"] = idx
@@ -297,7 +312,10 @@ def _expand_one(arg):
     modname, idx, ctx, hist = arg
     mod = importlib.import_module(modname)
     acc = Acc()
-    succ = mod.hist_expand(ctx, hist, acc)
+    try:
+        succ = mod.hist_expand(ctx, hist, acc)
+    except TooMany:
+        succ = []
     res = acc.result()
     res["idx"] = idx
     res["succ"] = succ
